@@ -2,7 +2,7 @@
 what the implementation is run on, so every case replays from its line."""
 from fractions import Fraction
 
-from harness.core import unhx
+from harness.core import unhx, sx
 
 
 def uS(tok: str) -> str:
@@ -180,10 +180,13 @@ def ptype(t, cache=None):
             obj = pt.StringParameterType(name, e)
         elif isinstance(e, encm.BinaryDataEncoding):
             obj = pt.BinaryParameterType(name, e)
-        elif isinstance(e, encm.FloatDataEncoding):
-            obj = pt.FloatParameterType(name, e)
         else:
-            obj = pt.IntegerParameterType(name, e)
+            # a numeric field's class does not have to match its encoding (a Float parameter on an integer encoding is
+            # legal XTCE and decodes by its encoding): now and then the other class is used
+            import zlib
+            cross = zlib.crc32(sx(t).encode()) % 5 == 0
+            is_f = isinstance(e, encm.FloatDataEncoding)
+            obj = (pt.FloatParameterType if is_f != cross else pt.IntegerParameterType)(name, e)
     elif kind == "bool":
         import warnings
         with warnings.catch_warnings():
